@@ -966,6 +966,7 @@ func init() {
 			{Name: "CIGAR-SPLIT", What: "sam.ParseCigar, splitting a length above 2^28−1: what is left after a piece was taken off is shown positive before an operation is made from it – no zero-length operation is invented, so the CIGAR column reads back as it was written (shared with C16; added after seventh-round seeds C06-h, C16-h)", Floor: 2, Run: ruleCigarSplit},
 			{Name: "SHARED-STATE", What: "package sam keeps no package-level state that a call writes, and nothing a formatter returns is backed by a pooled object: the line MarshalSAM returned stays the text of its record (added after fifteenth-round seed C06-q: the scratch buffer from a sync.Pool, its bytes returned)", Floor: 5, Run: ruleSharedState([]string{"sam"})},
 			{Name: "SEQ-ABSENT", What: "Cigar.IsValid(Seq.Length) is asked only where the sequence is present: a record with a CIGAR and SEQ \"*\" parses and formats (added after thirteenth-round seed C06-n)", Floor: 1, Run: ruleSeqAbsent},
+			{Name: "CIGAR-ITEMWISE", What: "what Cigar.String writes for one operation depends on that operation only: no argument of a call inside its loop carries a value round the loop other than the cursor that indexes the list – a formatter that merges or reorders operations does not give text that parses back to the same list (added after fifteenth-round seed C06-p, first left unreported)", Floor: 1, Run: ruleCigarItemwise},
 			{Name: "CIGAR-EVERY-OP", What: "ParseCigar makes at least one operation for every operation of the text, one of length 0 included (added after eleventh-round seed C06-l)", Floor: 1, Run: ruleCigarEveryOp},
 			{Name: "PARSE-WIDTH", What: "every strconv.ParseInt/ParseUint in package sam is given the bit size of the type its result is converted to (flags 16, mapping quality 8, the aux integer types): a smaller size refuses values the formatter prints (shared with C19; added after seventh-round seed C19-g)", Floor: 8, Run: ruleParseWidth([]string{"sam"}, 8)},
 			{Name: "PATH-SHARED", What: "a BAM record buffer whose data aliases memory the Reader will reuse is marked shared, so that the record's fields are copies: a record held across the next Read keeps its SAM line (shared with C05; under C06 since seventh-round seed C06-g)", Floor: 1, Run: ruleBufShared},
